@@ -293,6 +293,19 @@ def runTrace : TQ → List QEv → Option TQ
     | some (m, t') => if m.val == mon then runTrace t' rest else none
     | none => none
 
+/-- `Push` without the clamp (what the property's "lowest priority number" asks for when a monitor
+    priority is negative; used only to recognise a repaired tree, see `queue_clamps_negative_priorities`) -/
+def PQ.pushRaw (q : PQ) (val : Nat) (prio : Int) : PQ :=
+  { items := q.items ++ [{ prio := prio, seq := q.counter, val := val }], counter := q.counter + 1 }
+
+def checkTraceRaw : TQ → Nat → List QEv → Option Nat
+  | _, _, [] => none
+  | t, k, .push root prio mon :: rest => checkTraceRaw (t.set root ((t.get root).pushRaw mon prio)) (k + 1) rest
+  | t, k, .pop root mon :: rest =>
+    match t.pop root with
+    | some (m, t') => if m.val == mon then checkTraceRaw t' (k + 1) rest else some k
+    | none => some k
+
 /-- the same replay on the real representation (`HPQ`: container/heap on the slice) -/
 def checkTraceH : List (Nat × HPQ) → Nat → List QEv → Option Nat
   | _, _, [] => none
